@@ -194,6 +194,10 @@ func loopState(c *conn) stateFn {
 	if isCommand(line, "MAIL FROM") {
 		//c.msg.From, _ = mail.ParseAddress(line[10:])
 		c.PrintfLine("250 Ok")
+
+		// a new transaction starts with an empty message: BDAT chunks of a transaction that
+		// was abandoned without RSET (unknown command, empty line) must not end up in this mail
+		c.msg = c.newMessage()
 		return mailFromState
 	} else if isCommand(line, "STARTTLS") {
 		c.PrintfLine("220 Ready to start TLS")
